@@ -223,6 +223,19 @@ pub fn registration_list(mds: &[u8]) -> Vec<u8> {
   }
 }
 
+/// A server for a tag set, created from `registration_list`.  Whether a list that names a tag
+/// twice is accepted is not pinned by any property (refusing it would be a legitimate
+/// hardening): if it is refused, the server is created from the plain set instead.
+pub fn new_server(mds: &[u8]) -> Result<ppoprf::ppoprf::Server, ppoprf::PPRFError> {
+  let list = registration_list(mds);
+  if list != mds {
+    if let Ok(s) = ppoprf::ppoprf::Server::new(list) {
+      return Ok(s);
+    }
+  }
+  ppoprf::ppoprf::Server::new(mds.to_vec())
+}
+
 pub fn pick_tag(mds: &[u8], sel: u16) -> u8 {
   mds[idx(sel, mds.len())]
 }
